@@ -11,12 +11,11 @@
 (*   Part = "struct"  several elements in any insertion order, sequences   *)
 (*                    with 0..2 items, nested to depth 2, empty items      *)
 (***************************************************************************)
-EXTENDS DicomJson, Json, FiniteSets
+EXTENDS DicomJsonVectors, Json, FiniteSets
 
 CONSTANTS Part,        \* "vr" | "struct" | "all"
           MaxMult,     \* multiplicity bound of the VR sweep
-          Rich,        \* TRUE: larger value alphabets
-          Check        \* TRUE: check the specification against itself; FALSE: print the cases
+          Rich         \* TRUE: larger value alphabets
 VARIABLE c
 
 El(g, e, vr, rep, vals) == [g |-> g, e |-> e, vr |-> vr, rep |-> rep, vals |-> vals]
@@ -141,20 +140,25 @@ Cases == IF Part = "vr" THEN {<<el>> : el \in VRElems} ELSE IF Part = "struct" T
          ELSE {<<el>> : el \in VRElems} \cup StructCases
 
 (* One behaviour-free "state machine": the work is done when TLC evaluates  *)
-(* the constant-level definitions below (operator arguments are cached at   *)
-(* constant level, which makes this an order of magnitude faster than an    *)
-(* invariant over one initial state per case).                              *)
+(* the assumption below (operator arguments and LET definitions are cached  *)
+(* at constant level, which is much faster than an invariant over one       *)
+(* initial state per case).  The test vectors of DicomJsonVectors are       *)
+(* assumptions of this module too, so one TLC run checks the vectors,       *)
+(* checks the specification against itself on every case, and prints the    *)
+(* cases.                                                                   *)
 Init == c = 0
 Next == UNCHANGED c
 Spec == Init /\ [][Next]_c
 
-(* the specification checked against itself on every case *)
-SelfConsistentCase(d) == /\ DistinctTags(d)
-                         /\ Conforms(d, Shape(d))
-                         /\ SameDs(d, NormJson(d))
-                         /\ NormJson(NormJson(d)) = NormJson(d)
-SelfConsistent == \A d \in Cases : SelfConsistentCase(d) \/ Print(<<"INCONSISTENT", d>>, FALSE)
-EmitAll == \A d \in Cases : PrintT(<<"CASE", ToJson([ds |-> d, shape |-> Shape(d), norm |-> NormJson(d)])>>)
-Do == IF Check THEN SelfConsistent ELSE EmitAll
-ASSUME Do
+(* the specification checked against itself: the implementation-shaped      *)
+(* operators satisfy the property-level ones                                *)
+SelfConsistentCase(d, sh, nj) == /\ DistinctTags(d)
+                                 /\ Conforms(d, sh)
+                                 /\ SameDs(d, nj)
+                                 /\ NormJson(nj) = nj
+Case(d) == LET sh == Shape(d)
+               nj == NormJson(d)
+           IN /\ PrintT(<<"CASE", ToJson([ds |-> d, shape |-> sh, norm |-> nj])>>)
+              /\ SelfConsistentCase(d, sh, nj) \/ Print(<<"INCONSISTENT", d>>, FALSE)
+ASSUME \A d \in Cases : Case(d)
 =============================================================================
